@@ -818,3 +818,4 @@ def check(run, replay=None):
 
 # workloads added in seeding rounds 7-10 (DESIGN.md sections 13.9-13.12)
 LEVEL_TEXT = LEVEL_TEXT + ' Later additions: tolerances 0.7 and 0.9 (3-D error up to sqrt(3)/2); peak lists of 1-4 g-vectors on the indexer route.'
+LEVEL_TEXT = LEVEL_TEXT + ' Round 11: grains read from a grain file in which only some carry a translation line (readubis -> generate_grains -> assignlabels).'
